@@ -144,6 +144,7 @@ struct Checker<'a> {
     ev_mark: usize,
     regions_before: Vec<(u64, u64)>,
     slot_before: Vec<u8>,
+    mprotect_faults_before: u64,
     lifetime: usize,
     op_ordinal: u64,
     /// bytes written to code and not yet covered by an icache flush
@@ -476,6 +477,7 @@ impl<'a> Hooks for Checker<'a> {
         self.ev_mark = with_world(|w| w.events.len());
         self.regions_before = with_world(|w| w.injector_regions());
         self.slot_before = with_world(|w| w.peek(s, SLOT as usize).unwrap());
+        self.mprotect_faults_before = with_world(|w| w.counters.mprotect_injected_fail);
         // arm the fault schedule for this installation only (never for the restore path: the
         // properties promise nothing about a failing restore)
         let ord = self.op_ordinal;
@@ -571,11 +573,24 @@ impl<'a> Hooks for Checker<'a> {
                 if now != self.regions_before {
                     let extra: Vec<(u64, u64)> = now.iter().filter(|r| !self.regions_before.contains(r)).copied().collect();
                     let kind = if msg.contains("branch range") { "branch-range-panic" } else if msg.contains("Failed to allocate") { "scan-exhausted" } else if msg.contains("mprotect") || msg.contains("VirtualProtect") { "protect-failed" } else { "other-panic" };
-                    self.viol(
-                        &format!("failed-install-left-mapping[{kind}]"),
-                        &["C11"],
-                        format!("{what}: panicked with {:?} leaving mapping(s) {:x?} behind (target at {:#x})", msg, extra, t),
-                    );
+                    let protect_fault_fired = with_world(|w| w.counters.mprotect_injected_fail) > self.mprotect_faults_before;
+                    if !protect_fault_fired {
+                        self.viol(
+                            &format!("failed-install-left-mapping[{kind}]"),
+                            &["C11"],
+                            format!("{what}: panicked with {:?} leaving mapping(s) {:x?} behind (target at {:#x})", msg, extra, t),
+                        );
+                    } else {
+                        // not a placement rejected as out of range: outside C11/C12 as stated
+                        self.probe("mapping_orphaned_by_failed_install");
+                        with_world(|w| {
+                            for (s0, _) in &extra {
+                                if let Some(r) = w.regions.get_mut(s0) {
+                                    r.owner = Owner::Alias;
+                                }
+                            }
+                        });
+                    }
                 }
                 // writes made by a failed install still need their flush; and must stay in bounds
                 self.check_events(&what, None);
@@ -667,6 +682,7 @@ pub fn execute(sc: &SimScenario) -> Outcome {
         ev_mark: 0,
         regions_before: Vec::new(),
         slot_before: Vec::new(),
+        mprotect_faults_before: 0,
         lifetime: 0,
         op_ordinal: 0,
         dirty: BTreeSet::new(),
